@@ -128,6 +128,8 @@ def specs(tier):
     add("Isobaric", [], bare_kind="shear")
     add("Isotension", [["s", "C_shape"]], bare_kind="shear")
     add("GrandCanonical", [["e", "E_trans"]], twice=True)
+    add("GrandCanonical", [], in_composite="E")  # the user move sits inside a shipped composite with an exchange move
+    add("Isobaric", [], in_composite="C")
     add("Canonical", [["d", "D_ball"]], max_cycles=2)
     add("GrandCanonical", [["e", "E_trans"]], max_cycles=2)
     add("Isobaric", [["c", "C_iso"]], max_cycles=3, depth=1)
@@ -155,13 +157,22 @@ def make(spec, ch):
         sysm.mc, sysm.atoms, sysm.entries, sysm.leaves = mc, atoms, {}, []
         sysm.close = mc.close
     else:
-        sysm = build({k: v for k, v in spec.items() if k not in ("bare_kind", "depth", "twice", "cap")})
+        sysm = build({k: v for k, v in spec.items() if k not in ("bare_kind", "depth", "twice", "cap", "in_composite")})
     mc = sysm.mc
     install(mc, ChoiceRNG(ch, Policy(uniform_q=(0.3, 0.8), angular_q=None, product_limit=0, branch_calls=0)))
     bm, bc = BareMove("user-move", spec["bare_kind"]), BareCriteria("user-criteria")
     object.__setattr__(bm, "chooser", ch)
     object.__setattr__(bc, "chooser", ch)
-    mc.add_move(bm, criteria=bc, name="bare")
+    if spec.get("in_composite"):
+        from quansino.moves.cell import CellMove
+        from quansino.moves.composite import CompositeMove
+        from quansino.moves.exchange import ExchangeMove
+        from quansino.operations.cell import ShapeDeformation
+
+        partner = ExchangeMove(np.arange(len(sysm.atoms))) if spec["in_composite"] == "E" else CellMove(ShapeDeformation(0.04))
+        mc.add_move(CompositeMove([bm, partner]), criteria=bc, name="bare")
+    else:
+        mc.add_move(bm, criteria=bc, name="bare")
     if spec.get("twice"):  # the same user object registered a second time (other name and cadence)
         mc.add_move(bm, criteria=bc, name="bare-again", interval=2)
     crits = {}
@@ -241,9 +252,15 @@ def task(spec):
                 register_class(BareMove, "BareMove")
                 register_class(BareCriteria, "BareCriteria")
                 data = mc.to_dict()
-                d_ok = data["moves"]["bare"]["kwargs"]["move"] == bm.to_dict() and data["moves"]["bare"]["kwargs"]["criteria"] == bc.to_dict()
+                md = data["moves"]["bare"]["kwargs"]["move"]
+                if spec.get("in_composite"):
+                    md = md["kwargs"]["moves"][0]
+                d_ok = md == bm.to_dict() and data["moves"]["bare"]["kwargs"]["criteria"] == bc.to_dict()
                 mc2 = type(mc).from_dict(data)
-                r_ok = type(mc2.moves["bare"].move) is BareMove and type(mc2.moves["bare"].criteria) is BareCriteria and object.__getattribute__(mc2.moves["bare"].move, "kind") == spec["bare_kind"]
+                m2 = mc2.moves["bare"].move
+                if spec.get("in_composite"):
+                    m2 = m2.moves[0]
+                r_ok = type(m2) is BareMove and type(mc2.moves["bare"].criteria) is BareCriteria and object.__getattribute__(m2, "kind") == spec["bare_kind"]
                 mc2.close()
                 ser = (d_ok, r_ok, None)
             except Exception as e:  # noqa: BLE001
@@ -289,9 +306,11 @@ def task(spec):
                     V(f"C20/{ens}/bare-move-not-executed-once", f"move called {called} times in its trial", ch)
                 truthy = consulted > 0 or verdict is not None
                 outcomes.add((ens, "bare", repr(verdict)))
-                if verdict is None and consulted != 0:
+                if spec.get("in_composite"):
+                    pass  # the composite's truthiness is any(element results): routing is judged on plain entries
+                elif verdict is None and consulted != 0:
                     V(f"C20/{ens}/falsy-result-sent-to-criteria", "trial recorded as not attempted but the criteria was consulted", ch)
-                if verdict is not None and consulted != 1:
+                if not spec.get("in_composite") and verdict is not None and consulted != 1:
                     V(f"C20/{ens}/truthy-result-criteria-consulted-{consulted}-times", f"verdict {verdict}", ch)
             else:
                 outcomes.add((ens, name, repr(verdict)))
